@@ -54,7 +54,8 @@ def ndjsonLoop : Nat → Bytes → Nat → Nat → Option (Nat × Nat)
     if raw.isEmpty then some (lc, oa) else
     let (l, rest) := scanLine raw
     let r := Json.parse Gen.Json.q_json l
-    if l.length != r.inspected then none else
+    let blank := r.firstToken == tokInvalid && l.length == r.inspected
+    if l.length != r.parsed && !blank then none else
     let oa' := if r.firstToken == tokArray || r.firstToken == tokObject then oa + 1 else oa
     ndjsonLoop fuel rest (lc + 1) oa'
 
